@@ -251,3 +251,50 @@ func VH_C15_RestartLoadsEveryAccountFile_sym() {
 		vAssert("every_account_file_is_an_account_after_restart", a != nil && a.Login == l)
 	}
 }
+
+// The password rules hold for a renaming entry of a batched update exactly as for a plain one: no password field
+// clears the password, the one-zero-byte marker keeps it, anything else sets it.
+func VH_C15_BatchedRenamePasswordRules() {
+	srv, cc := vNewServer()
+	cc.Account.Access = hotline.AccessBitmap{0xff, 0xff, 0xff, 0xff, 0xff, 0xff, 0xff, 0xff}
+	am := &vStubAM{getResult: &hotline.Account{Login: "bob", Name: "Bob", Password: "H:zzold"}}
+	srv.AccountManager = am
+	obf := func(s string) []byte {
+		b := []byte(s)
+		for i := range b {
+			b[i] = 255 - b[i]
+		}
+		return b
+	}
+	mode := vChoice("password_field", 3) // 0 absent, 1 marker, 2 new password
+	pw := vBytesEach("new_password", 2)
+	n := 3
+	if mode != 0 {
+		n = 4
+	}
+	ren := []byte{0, byte(n)}
+	ren = append(ren, vSubField(hotline.FieldData, obf("bob"))...)
+	ren = append(ren, vSubField(hotline.FieldUserLogin, obf("rob"))...)
+	ren = append(ren, vSubField(hotline.FieldUserName, []byte("Bob"))...)
+	switch mode {
+	case 1:
+		ren = append(ren, vSubField(hotline.FieldUserPassword, []byte{0})...)
+	case 2:
+		vAssume(!(len(pw) == 1 && pw[0] == 0))
+		ren = append(ren, vSubField(hotline.FieldUserPassword, pw)...)
+	}
+	t := hotline.NewTransaction(hotline.TranUpdateUser, cc.ID, f(hotline.FieldData, ren))
+	HandleUpdateUser(cc, &t)
+	vAssert("rename_performed", len(am.updated) == 1 && am.updatedNew[0] == "rob")
+	if len(am.updated) == 1 {
+		got := am.updated[0].Password
+		switch mode {
+		case 0:
+			vAssert("rename_without_password_field_clears_it", vIsHashOf(got, ""))
+		case 1:
+			vAssert("rename_with_marker_keeps_it", got == "H:zzold")
+		default:
+			vAssert("rename_with_new_password_sets_it", vIsHashOf(got, string(pw)))
+		}
+	}
+}
